@@ -395,31 +395,63 @@ def rule_key_templates(em, rep, rid, emitter_side=True):
                    '%s key %s' % (shape, ''.join(v if k == 'lit' else '{%s}' % v for k, v in t)), f.loc(n))
     rep.minimum('predicate-key sites in query/register_function', n_ok, 4)
     if emitter_side:
+        # the "def" line of the function template (E5: the emitter abstractly interpreted, helpers inlined)
+        from .templates import TemplateSet, Lit, Hole, Cat, Lines, IndentDoc, IntDoc, Repr, MapSub
         gen = em.repo.cls('yp_generator', 'YPPythonCodeGenerator')
         gf = gen.methods.get('generate_function')
         if gf is None:
             raise AnalysisError('anchor vanished: YPPythonCodeGenerator.generate_function')
+        ts = getattr(em, '_templates', None) or TemplateSet(em.repo)
+        em._templates = ts
+        if 'generate_function' not in ts.methods:
+            ts.methods['generate_function'] = ts.ex.template('generate_function')
         found = 0
-        for n in own_nodes_ordered(gf.node):
-            if isinstance(n, (ast.JoinedStr, ast.BinOp)) and not isinstance(getattr(n, '_parent', None), (ast.JoinedStr, ast.BinOp, ast.FormattedValue)):
-                t = template(n)
-                if t and t[0][0] == 'lit' and t[0][1].startswith('def '):
-                    found += 1
-                    # def {name}_{len(args)}(
+        seen = set()
+        for gs, doc, net in ts.methods['generate_function']:
+            atoms = []
+
+            def flat(d):
+                if isinstance(d, Cat):
+                    for x in d.parts:
+                        flat(x)
+                elif isinstance(d, Lines):
+                    for k, x in enumerate(d.items):
+                        if k:
+                            atoms.append(('lit', d.sep))
+                        flat(x)
+                elif isinstance(d, Lit):
+                    atoms.append(('lit', d.t))
+                elif isinstance(d, (Hole, Repr)):
+                    atoms.append(('hole', norm(d.expr)))
+                elif isinstance(d, (IndentDoc,)):
+                    atoms.append(('lit', ''))
+                else:
+                    atoms.append(('hole', repr(d)))
+            flat(doc)
+            atoms = _merge([a for a in atoms if not (a[0] == 'lit' and a[1] == '')])
+            for k, (kind, v) in enumerate(atoms):
+                if kind == 'lit' and re.search(r'(^|\n)\s*def ', v):
+                    rest = [('lit', re.split(r'(?:^|\n)\s*def ', v)[-1])] + atoms[k + 1:]
                     sub = []
-                    rest = [('lit', t[0][1][4:])] + t[1:] if t[0][1] != 'def ' else t[1:]
-                    for k, v in rest:
-                        if k == 'lit' and '(' in v:
-                            if v.split('(')[0]:
-                                sub.append(('lit', v.split('(')[0]))
+                    for k2, v2 in rest:
+                        if k2 == 'lit' and '(' in v2:
+                            if v2.split('(')[0]:
+                                sub.append(('lit', v2.split('(')[0]))
                             break
-                        sub.append((k, v))
-                    key = '%s:%s' % (gf.qname, ''.join(v if k == 'lit' else '{%s}' % v for k, v in sub))
+                        if k2 == 'lit' and not v2:
+                            continue
+                        sub.append((k2, v2))
+                    text = ''.join(v if k == 'lit' else '{%s}' % v for k, v in sub)
+                    if text in seen:
+                        continue
+                    seen.add(text)
+                    found += 1
+                    key = '%s:%s' % (gf.qname, text)
                     if key_shape(sub) == 'exact' and sub[2][1].startswith('len('):
-                        rep.ok(rid, key, 'emitted function name has the exact-key form', gf.loc(n))
+                        rep.ok(rid, key, 'emitted function name has the exact-key form', gf.loc())
                     else:
                         rep.violation(rid, key, 'the emitted "def" name is not name_<number of arguments>: compiled predicates '
-                                      'are stored under a key that query() does not look up', gf.loc(n))
+                                      'are stored under a key that query() does not look up', gf.loc())
         rep.minimum('emitted def-name templates', found, 1)
 
 
